@@ -6,6 +6,8 @@ L2: the three effect classes on the REAL chain objects: for random programs over
     addresses must represent the same dense vector (tensor part x prefactor) after each step, and the
     mutable containers (`_mp` list, `qn` list) of a derived object must not be those of its source.
 L3: the same for every scheme, MpDm, trees, zero and non-zero offsets (search_c13)."""
+import os
+
 import numpy as np
 
 import common
@@ -94,9 +96,68 @@ def l2_effects(run, rng, quick):
     return done
 
 
+def l2_disk_backed(run, rng, quick):
+    """states whose site matrices live on disk (`CompressConfig.dump_matrix_size`): the files belong to the object that wrote
+    them; measuring, copying or deriving from such a state must leave it readable and unchanged."""
+    import tempfile
+    from renormalizer.model import Model, Op, basis as ba
+    from renormalizer.mps import Mps, Mpo
+    from renormalizer.utils import CompressConfig, CompressCriteria, EvolveConfig, EvolveMethod
+    done = 0
+    cwd = os.getcwd()
+    with tempfile.TemporaryDirectory(prefix="c13_disk_") as tmp:
+        os.chdir(tmp)
+        try:
+            for _ in range(3 if quick else 20):
+                n = int(rng.integers(3, 6))
+                basis = [ba.BasisHalfSpin(i) for i in range(n)]
+                terms = [Op("sigma_x sigma_x", [i, i + 1], 0.7) for i in range(n - 1)] + [Op("sigma_z", i, 0.3 * (i + 1)) for i in range(n)]
+                model = Model(basis, terms)
+                mpo = Mpo(model)
+                np.random.seed(int(rng.integers(2 ** 31)))
+                base = Mps.random(model, 0, 4, 1.0)
+                if rng.random() < 0.5:
+                    base = base.to_complex()
+                base.compress_config = CompressConfig(CompressCriteria.fixed, max_bonddim=4, dump_matrix_size=1, dump_matrix_dir=tmp)
+                src = base.copy()              # the copy writes its matrices to disk
+                on_disk = sum(1 for m in src._mp if isinstance(m, str))
+                run.count(f"disk-backed:matrices-on-disk={'all' if on_disk == len(src._mp) else on_disk}")
+                ref = np.asarray(src.todense()).ravel() * complex(src.coeff)
+                ops = [("copy", lambda s: s.copy()), ("calc_bond_entropy", lambda s: s.calc_bond_entropy()),
+                       ("calc_entropy(bond)", lambda s: s.calc_entropy("bond")), ("expectation", lambda s: s.expectation(mpo)),
+                       ("conj", lambda s: s.conj()), ("scale", lambda s: s.scale(0.5)), ("add", lambda s: s.add(s)),
+                       ("apply", lambda s: mpo.apply(s)), ("copy.canonicalise", lambda s: s.copy().canonicalise()),
+                       ("copy.compress", lambda s: s.copy().canonicalise().compress()), ("e_occupations", lambda s: s.expectations([mpo, mpo])),
+                       ("evolve", lambda s: s.evolve(mpo, 0.05))]
+                src.evolve_config = EvolveConfig(EvolveMethod.tdvp_ps)
+                for name, op in ops:
+                    try:
+                        res = op(src)
+                    except Exception as e:  # noqa
+                        run.count(f"disk-backed:op-raised:{name}:{type(e).__name__}")
+                        res = None
+                    try:
+                        now = np.asarray(src.todense()).ravel() * complex(src.coeff)
+                        bad = float(np.max(np.abs(now - ref))) > 1e-12 * max(1.0, float(np.max(np.abs(ref))))
+                        err = None
+                    except Exception as e:  # noqa
+                        bad, err = True, repr(e)[:200]
+                    done += 1
+                    if bad:
+                        run.violation(f"disk-backed:{name}:input-destroyed" if err else f"disk-backed:{name}:input-changed",
+                                      dict(nsite=n, operation=name, error=err,
+                                           what="an operation on a state whose matrices are kept on disk (dump_matrix_size) destroyed or changed that state"))
+                        break
+                    del res
+        finally:
+            os.chdir(cwd)
+    run.cov["disk_backed_operations"] = done
+    return done
+
+
 if __name__ == "__main__":
     common.main_wrapper(lambda: generic_check.run_check(
-        "C13", "proof", ["RenoVerif/Props/C13.lean"], [l2_effects],
+        "C13", "proof", ["RenoVerif/Props/C13.lean"], [l2_effects, l2_disk_backed],
         ["raw sharing of immutable NumPy buffers (e.g. conj() of a real state) is allowed by the model; what is forbidden is a change of the represented object",
          "documented exemptions: OFS reorders the Hamiltonian passed in; the optimiser overwrites its initial guess",
          "evolution schemes, MpDm, trees and non-zero offsets are covered by search_c13"],
